@@ -128,7 +128,62 @@ def gen_op(rng, prev_ruin):
     return op
 
 
+def arm_quota(rng, op):
+    """a counting quota for this step: reached from its k-th poll on (InsertionHeuristic::process polls once per
+    insertion round, DecomposeSearch once per repeat); most steps run without interruption"""
+    if rng.chance(1, 5):
+        op['quota'] = rng.range(0, 8)
+    return op
+
+
+def gen_fleet_case(rng, tier, observe):
+    """many small vehicles, every job assignable, a few jobs pending in `ignored`, no pinned jobs: the solutions have
+    3+ tours and nothing unassigned, so DecomposeSearch really decomposes (2+ groups and no leftover of pending jobs
+    other than the ignored ones)"""
+    n = rng.range(5, 8)
+    dur, dist = gen_matrix(rng, n, True)
+    feats = {'compat': False, 'groups': False, 'order': rng.chance(1, 3)}
+    count = rng.range(8, 12)
+    cap = rng.range(2, 3)
+    nveh = -(-count // cap) + rng.range(1, 2)
+    vehicles = []
+    for _ in range(nveh):
+        end = rng.choice([0, 0, None])
+        vehicles.append({'start': 0, 'end': end, 'shift_start': 0, 'shift_latest': None, 'shift_end': 'inf', 'cap': cap,
+                         'costs': [rng.range(0, 20), rng.range(1, 3), rng.range(0, 2), 0, 0]})
+    jobs = []
+    for i in range(1, count + 1):
+        j = {'id': i, 'places': [gen_place(rng, n, wide=not rng.chance(1, 4))], 'dem': [0, 0, 1, 0]}
+        if feats['order'] and rng.chance(1, 2):
+            j['order'] = rng.range(1, 3)
+        jobs.append(j)
+    ignored = sorted(j['id'] for j in rng.shuffle(jobs)[:rng.range(1, 2)])
+    hist = []
+    for _ in range(rng.range(4, 9) if tier == 'quick' else rng.range(6, 14)):
+        r = rng.below(10)
+        op = gen_op(rng, False)
+        if r < 5:
+            op['op'] = 'search:decompose'
+            op['repeat'] = rng.range(1, 2)
+        elif r < 7:
+            op['op'] = 'search:' + rng.choice(['rr', 'local_search', 'redistribute'])
+        elif r < 9:
+            op['op'] = 'local:' + rng.choice(LOCALS)
+        else:
+            op['op'] = 'recreate:' + rng.choice(RECREATES)
+        op.setdefault('ruin', rng.choice(RUINS))
+        op.setdefault('recreate', rng.choice(RECREATES))
+        op.setdefault('recovery', rng.choice(RECREATES))
+        op.setdefault('local', rng.choice(LOCALS))
+        op.setdefault('repeat', 1)
+        hist.append(arm_quota(rng, op) if rng.chance(1, 2) else op)
+    return {'n': n, 'dur': dur, 'dist': dist, 'vehicles': vehicles, 'jobs': jobs, 'features': feats, 'locks': [],
+            'ignored': ignored, 'seed': rng.next() % (2 ** 53), 'history': hist, 'observe': observe}
+
+
 def gen_case(rng, tier='quick', metric=None, observe=False):
+    if metric is None and rng.chance(1, 4):
+        return gen_fleet_case(rng, tier, observe)
     n = rng.range(4, 7)
     if metric is None:
         metric = not rng.chance(1, 12)
@@ -146,14 +201,19 @@ def gen_case(rng, tier='quick', metric=None, observe=False):
                 j['dem'] = [0, 0, 1, 0]
             locks.append({'vehicle': rng.below(len(vehicles)), 'jobs': [j['id'] for j in picked],
                           'order': rng.choice(['strict', 'sequence'])})
+    ignored = []
+    if rng.chance(1, 4):      # a few jobs start pending in `ignored` (a legal home, as conditional jobs have)
+        pinned = set(i for l in locks for i in l['jobs'])
+        free = [j['id'] for j in jobs if j['id'] not in pinned]
+        ignored = sorted(rng.shuffle(free)[:rng.range(1, 2)])
     hist = []
     prev_ruin = False
     for _ in range(rng.range(6, 18) if tier == 'quick' else rng.range(10, 30)):
-        op = gen_op(rng, prev_ruin)
+        op = arm_quota(rng, gen_op(rng, prev_ruin))
         prev_ruin = op['op'].startswith('ruin')
         hist.append(op)
     return {'n': n, 'dur': dur, 'dist': dist, 'vehicles': vehicles, 'jobs': jobs, 'features': feats, 'locks': locks,
-            'seed': rng.next() % (2 ** 53), 'history': hist, 'observe': observe}
+            'ignored': ignored, 'seed': rng.next() % (2 ** 53), 'history': hist, 'observe': observe}
 
 
 # ---------------------------------------------------------------- Gallina rendering
